@@ -16,7 +16,18 @@ CFG = ('SPECIFICATION Spec\nCONSTANTS\n  MaxN = %d\n  TieLen = %d\n  TieAlpha = 
 def pseudo_obs(case):
     x, y = np.array(case['x'], dtype=float), np.array(case['y'], dtype=float)
     m = max(x.max(), y.max())
-    return np.column_stack([x / (m + 1.0), y / (m + 1.0)])
+    U = np.column_stack([x / (m + 1.0), y / (m + 1.0)])
+    # the ranks are what the specification speaks of; the values that carry them vary from case to case (Kendall's tau and every
+    # verdict are invariant under increasing maps of either column): thirds, sevenths, tenths ... instead of r / (m + 1) only
+    k = int(len(x) + x.sum() + 2 * y.sum()) % 4
+    if k == 1:
+        U = U * 0.7
+    elif k == 2:
+        U = 0.05 + 0.9 * U
+    elif k == 3:
+        U[:, 0] = U[:, 0] ** 2
+        U[:, 1] = 0.1 + 0.8 * U[:, 1]
+    return U
 
 
 def frank_tau(theta):
@@ -54,6 +65,13 @@ def given_cases(seed, count):
             x = (x + 1) // 2
             y = (y + 2) // 3
         out.append({'x': [int(v) for v in x], 'y': [int(v) for v in y]})
+    # constant columns of several lengths (the values come from pseudo_obs: 0.175, 0.5, 0.275, 1/16 ...)
+    for n in (3, 5, 6, 7, 10, 12, 20, 33):
+        for c in (1, 2, 3):
+            p = [int(v) for v in rs.permutation(n) + 1]
+            out.append({'x': [c] * n, 'y': p})
+            out.append({'x': p, 'y': [c] * n})
+        out.append({'x': [2] * n, 'y': [1] * n})
     # Kendall tau exactly 0 on longer columns (the boundary between "Frank only" and "several candidates")
     want = max(12, 2 * count // 3)
     while want:
